@@ -193,7 +193,12 @@ pub fn eval<D: Dom>(c: &Case<D>, mode: Mode, o: &mut Out) -> Evaluated {
                     sexp::l(vec![S::L(ms.clone()), sexp::b(exists)]).to_string(),
                     nontrivial,
                 );
-                if anchors != occ[pi][hi] {
+                // C05 speaks of the set of reported occurrences (each once), not of their order
+                let mut a_sorted = anchors.clone();
+                a_sorted.sort();
+                let mut o_sorted = occ[pi][hi].clone();
+                o_sorted.sort();
+                if a_sorted != o_sorted {
                     o.violation(
                         format!("{}: SinglePatternMatcher reports anchors {} but pattern {} occurs exactly at {} in host {}", D::NAME, S::L(anchors.clone()), D::pat_s(p), S::L(occ[pi][hi].clone()), D::host_s(h)),
                         replay.clone(),
@@ -224,7 +229,7 @@ pub fn eval<D: Dom>(c: &Case<D>, mode: Mode, o: &mut Out) -> Evaluated {
                     want.push((pi, a.clone()));
                 }
             }
-            if got != want {
+            if sorted(&got) != sorted(&want) {
                 o.violation(format!("{}: NaiveManyMatcher reports {} but the occurrences, numbered by input position, are {}", D::NAME, matches_s(&got), matches_s(&want)), replay.clone());
             }
         }
